@@ -18,7 +18,10 @@ readers go through a double).
 Corr: the Lean model (`Slu.Readers.readHB/readRB/readMM/readTriple`) reads the very same bytes;
 its dimensions, pointers and indices must equal the implementation's *in storage order*, and its
 exact rational values, correctly rounded (`roundBits`; through a double first where the C code
-does), must equal the returned bit patterns.
+does), must equal the returned bit patterns.  For Harwell-Boeing / Rutherford-Boeing files the value
+block is read a second time by the statement-level model of `[sdcz]ReadValues`
+(`Slu.Readers.Values.readValues` / `readValuesCx` through `readHBRBLoops`: line by line, field cut,
+D -> E, pair toggle carried across lines) and compared the same way (messages `values: ...`).
 -/
 namespace Slu.Drv.Readers
 open Slu Slu.Readers
@@ -189,8 +192,28 @@ def prop (c : Case) : Option String := Id.run do
 
 /-! ### Corr -/
 
-def corr (c : Case) : Option String := Id.run do
+/-- exact rational values of a model run against the returned bit patterns (`pre` prefixes the message) -/
+def valuesDiffer (c : Case) (pre : String) (vals : Array Rat) : Option String := Id.run do
   let dbl := c.isDouble
+  let fmt := fmtTag c
+  let rv := c.raw "R.val"
+  if vals.size ≠ rv.size then return some s!"{pre}value count model={vals.size} impl={rv.size}"
+  -- fixed-format single-precision readers: atof (double) then a cast; free-format: scanf("%f")
+  let viaDouble := !dbl && (fmt == "hb" || fmt == "rb")
+  for k in List.range rv.size do
+    let q := vals[k]!
+    let e : UInt64 :=
+      if dbl then roundF64 q
+      else if viaDouble then roundF32 ((f64ToRat? (roundF64 q)).getD 0)
+      else roundF32 q
+    -- a printed "-0.0" reads as the negative zero; a rational has no sign of zero
+    let signMask : UInt64 := if dbl then 0x7fffffffffffffff else 0x7fffffff
+    let same := e == rv[k]! || (q == 0 && (rv[k]! &&& signMask) == 0)
+    if !same then
+      return some s!"{pre}value[{k}] model={hexOfNat e.toNat (if dbl then 16 else 8)} impl={hexOfNat rv[k]!.toNat (if dbl then 16 else 8)}"
+  return none
+
+def corr (c : Case) : Option String := Id.run do
   let fmt := fmtTag c
   match runModel c with
   | .error e => return some s!"the model rejects a generated file: {e} ({encOf c})"
@@ -198,27 +221,22 @@ def corr (c : Case) : Option String := Id.run do
     let rd := c.int "R.dims"
     if r.m ≠ rd[0]! ∨ r.n ≠ rd[1]! ∨ r.nnz ≠ rd[2]! then
       return some s!"dims/nnz model=({r.m},{r.n},{r.nnz}) impl=({rd[0]!},{rd[1]!},{rd[2]!})"
-    let cp := c.int "R.colptr"; let ri := c.int "R.rowind"; let rv := c.raw "R.val"
+    let cp := c.int "R.colptr"; let ri := c.int "R.rowind"
     if r.colptr ≠ cp then
       let i := ((List.range cp.size).find? fun i => r.colptr.getD i (-99) ≠ cp[i]!).getD 0
       return some s!"colptr[{i}] model={r.colptr.getD i (-99)} impl={cp.getD i (-99)}"
     if r.rowind ≠ ri then
       let i := ((List.range ri.size).find? fun i => r.rowind.getD i (-99) ≠ ri[i]!).getD 0
       return some s!"rowind[{i}] model={r.rowind.getD i (-99)} impl={ri.getD i (-99)} (storage order)"
-    if r.vals.size ≠ rv.size then return some s!"value count model={r.vals.size} impl={rv.size}"
-    -- fixed-format single-precision readers: atof (double) then a cast; free-format: scanf("%f")
-    let viaDouble := !dbl && (fmt == "hb" || fmt == "rb")
-    for k in List.range rv.size do
-      let q := r.vals[k]!
-      let e : UInt64 :=
-        if dbl then roundF64 q
-        else if viaDouble then roundF32 ((f64ToRat? (roundF64 q)).getD 0)
-        else roundF32 q
-      -- a printed "-0.0" reads as the negative zero; a rational has no sign of zero
-      let signMask : UInt64 := if dbl then 0x7fffffffffffffff else 0x7fffffff
-      let same := e == rv[k]! || (q == 0 && (rv[k]! &&& signMask) == 0)
-      if !same then
-        return some s!"value[{k}] model={hexOfNat e.toNat (if dbl then 16 else 8)} impl={hexOfNat rv[k]!.toNat (if dbl then 16 else 8)}"
+    if let some msg := valuesDiffer c "" r.vals then return some msg
+    -- the value block once more, through the statement-level loops of `[sdcz]ReadValues`
+    -- (`Values.readValues` / `Values.readValuesCx`: the objects of `read_print_values*`)
+    if fmt == "hb" || fmt == "rb" then
+      match readHBRBLoops (fmt == "rb") c.isComplex (textOf c) with
+      | .error e => return some s!"values: the loop model of ReadValues fails on a generated file: {e} ({encOf c})"
+      | .ok r2 =>
+        if r2.colptr ≠ cp ∨ r2.rowind ≠ ri then return some s!"values: structure differs after the loop model ({encOf c})"
+        if let some msg := valuesDiffer c "values: " r2.vals then return some s!"{msg} ({encOf c})"
     return none
 
 def handle (c : Case) : Res :=
